@@ -21,10 +21,10 @@ Record dtag := mkDtag { dt_cmd : str; dt_pairs : list str }.
 Record tocinfo := mkToc { hasPart : bool; hasChapter : bool; hcount : nat; pcount : nat; ccount : nat; scount : nat; sscount : nat;
                           pnum : nat; cnum : nat; snum : nat; ssnum : nat }.
 Record umdef := mkUm { um_line : nat; um_name : str; um_ignore : bool; um_argsc : nat; um_opts : list (str * bool); (* true = ArgOption *)
-                       um_blocks : list block; um_list : bool }.
+                       um_blocks : list block; um_list : bool; um_file : str }.
 Record bfinfo := mkBf { bf_tag : str; bf_ignore : bool; bf_inuser : bool; bf_line : nat }.
 (* a diagnostic, projected: line (None = end of file / no block), calling user macro if any, macro register, kind *)
-Record diag := mkDiag { d_line : option nat; d_user : option str; d_macro : str; d_kind : str }.
+Record diag := mkDiag { d_file : str; d_line : option nat; d_user : option str; d_macro : str; d_kind : str }.
 
 Record st := mkSt {
   (* dispatch registers *)
@@ -43,13 +43,15 @@ Record st := mkSt {
   params : list (str * str); dtags : list (str * dtag); mtags : list (str * mtag);
   (* control *)
   ifdepth : nat; udef : option umdef; umacros : list (str * umdef); ivars : list (str * str);
-  cdepth : nat; cloc : option (nat * str);          (* line and name of the outermost user-macro invocation *)
+  cdepth : nat; cloc : option (nat * str * str);    (* line, name and file of the outermost user-macro invocation *)
+  xcount : nat; xexh : bool;                           (* expansions since that invocation; budget reported as exhausted *)
+  cfile : str; incstack : list str;                   (* current file; files being processed, innermost last *)
   has_cur : bool;                                     (* ctx.loc has a current block (false at end of file) *)
   format : str;
   (* exporter-private state *)
   fontstack : list str; xverse : bool; incell : bool; nesting : Z;
-  (* the world: which files exist (os.Stat) *)
-  existing : list str;
+  (* the world: which files exist (os.Stat); frundis sources by path; FRUNDISLIB directories; -x *)
+  existing : list str; fs : list (str * str); libdirs : list str; unrestricted : bool;
   (* output mode and files: 0 fragment to one file, 1 standalone single file, 2 multi-file directory *)
   mode : nat; files : list (str * str); curfile : str; navtext : str;
   (* log *)
@@ -59,15 +61,15 @@ Record st := mkSt {
   <macro; args; prev; line; text; process; quiet; inl; asis; par; verse; ws; buf; wout; raw; bf; sblock; sinline; sif;
    toc; lox_toc; lox_nav; lox_lof; lox_lot; lox_lop; ids; images;
    tcell; tcount; ttit; tcols; tid; ttitle; tscope; ttitscope; tinfo; fig; vused; vcount; cid; cidx;
-   params; dtags; mtags; ifdepth; udef; umacros; ivars; cdepth; cloc; has_cur; format; fontstack; xverse; incell; nesting; existing; mode; files; curfile; navtext; diags; panicked>.
+   params; dtags; mtags; ifdepth; udef; umacros; ivars; cdepth; cloc; xcount; xexh; cfile; incstack; has_cur; format; fontstack; xverse; incell; nesting; existing; fs; libdirs; unrestricted; mode; files; curfile; navtext; diags; panicked>.
 #[export] Instance eta_toc : Settable _ := settable! mkToc <hasPart; hasChapter; hcount; pcount; ccount; scount; sscount; pnum; cnum; snum; ssnum>.
 
 (* ctx.Error: respects quiet; location from the outermost user-macro call if any, else the current block *)
 Definition err (kind : string) (s : st) : st :=
   if quiet s then s else
   let d := match cloc s with
-           | Some (l, n) => mkDiag (Some l) (Some n) (macro s) (runes kind)
-           | None => mkDiag (if has_cur s then Some (line s) else None) None (macro s) (runes kind)
+           | Some (l, n, f) => mkDiag f (Some l) (Some n) (macro s) (runes kind)
+           | None => mkDiag (cfile s) (if has_cur s then Some (line s) else None) None (macro s) (runes kind)
            end in
   s <| diags ::= fun l => l ++ [d] |>.
 
